@@ -103,7 +103,7 @@ struct Explorer {
             if (!other) continue;
           } else if (!s || !s->open)
             continue;
-          if (s && s->tcp && m == FG_WRONGSRC) continue;
+          if (s && s->tcp && (m == FG_WRONGSRC || m == FG_WRONGSRC_FRAMED)) continue;
           // a different letter case is only a forgery when 0x20 randomisation protects the transmission (UDP)
           if (m == FG_CASEFLIP && (!(w.cfg->flags & ARES_FLAG_DNS0x20) || t.tcp)) continue;
           // a reply without cookie is only illegitimate once this server has proven cookie support
